@@ -141,10 +141,13 @@ func cmdCheck(args []string) {
 		fmt.Fprintf(os.Stderr, "unknown property %s\n", id)
 		os.Exit(3)
 	}
-	tmo := 8.0
+	// per-solver timeout of the race that follows the 3 s quick attempt. Generous on purpose: an obligation
+	// that needs a fraction of a second alone can need many seconds when the shared prelude has grown
+	// (whole-module sweep of C01) and the machine is loaded; a timeout would be a false alarm.
+	tmo := 20.0
 	agree := false
 	if tier == "thorough" {
-		tmo = 30
+		tmo = 45
 		agree = true
 	}
 	p, err := LoadProgram(repoDir)
